@@ -148,15 +148,13 @@ Proof. intros H. rewrite sink_errs, (no_sync_errs hi k c H). now rewrite app_nil
 From Zap Require C17.Proofs C02.Proofs.
 Definition case_ok (i : sx) : Prop :=
   match sx_z (sx_nth i 0) with
-  | 0%Z => let e := sx_nth i 1 in
-           C02.Model.wf e = true /\ owf_ctxs (ec_ctxs (dec_case e)) /\ owf_flds (ec_fs (dec_case e)) /\
-           rend_pre (t_rend (time_val (ec_ent (dec_case e))))
+  | 0%Z => C02.Model.wf (sx_nth i 1) = true
   | _ => no_sync_fault (dec_score (sx_size (sx_nth i 2)) (sx_nth i 2)) = true
   end.
 Theorem wire_thm i : case_ok i -> spec i (model i) = true.
 Proof.
   unfold case_ok, spec, model. destruct (sx_z (sx_nth i 0)) eqn:E.
-  - intros (Hw & Hc & Hf & Ht). pose proof (C02.Proofs.wire_line (sx_nth i 1) Hw Hc Hf Ht) as H.
+  - intros Hw. pose proof (C02.Proofs.wire_line (sx_nth i 1) Hw) as H.
     unfold C02.Model.model in *. destruct (encode_entry _ _ _ _ _); [|discriminate H]. exact H.
   - intros H. unfold spec_sink, model_sink. cbn [sx_nth sx_l nth]. rewrite C17.Proofs.sx_eqb_refl. cbn [andb].
     set (c := dec_score _ _) in *. set (hi := sx_bool _). set (n := sx_n _).
